@@ -183,6 +183,20 @@ def check(case, ctx):
         if bv.shape != results[comp].shape or not np.array_equal(bv, results[comp]):
             raise Violation("2d_vector wrapper differs from the per-component vector form", component=comp)
 
+    # the very same component objects updated in place (a time-stepping loop): results are a function of the values,
+    # so they equal those of fresh copies holding the same values
+    uda.values[...] = 3 - 2 * uda.values
+    vda.values[...] = 3 - 2 * vda.values
+    fu, fv = uda.copy(deep=True), vda.copy(deep=True)
+    for (cn, c, on, o), (fc_, fo_) in zip((("X", uda, "Y", vda), ("Y", vda, "X", uda)), ((fu, fv), (fv, fu))):
+        same = must_return("vector op on components updated in place", fop, {cn: c}, cn, other_component={on: o}, **ckw)
+        fresh = must_return("vector op on fresh copies", fop, {cn: fc_}, cn, other_component={on: fo_}, **ckw)
+        if not np.array_equal(np.asarray(same.values), np.asarray(fresh.values)):
+            raise Violation("after the component objects were updated in place the result differs from that of fresh copies with the same values", component=cn)
+        if np.ptp(results[cn]) > 0 and case["boundary"] != "fill" and not np.allclose(
+                np.asarray(same.transpose(*cb).values), (-2 * results[cn] + (0 if case["op"] == "diff" else 3)), rtol=1e-9, atol=1e-9 * max(1.0, float(np.abs(results[cn]).max()))):
+            raise Violation("result after an in-place update is not the affine image of the earlier result", component=cn)
+
     if case["op"] == "diff":
         div = results["X"] + results["Y"]
         gdiv = (U[..., :, 1:] - U[..., :, :-1]) + (V[..., 1:, :] - V[..., :-1, :])
